@@ -30,7 +30,8 @@ KNOWN = ("C01-NONLIT", "C01-NONLIT-KLS", "C02-MIXEDKIND", "C02-GONEREF")
 
 @st.composite
 def cases(draw):
-    g = draw(gg.general(bnodes=False, lit_kinds=["word", "lang", "integer"], max_stmts=22, odd_schemes=draw(st.integers(0, 3)) == 0))
+    g = draw(gg.general(bnodes=False, lit_kinds=["word", "lang", "integer"], max_stmts=22, odd_schemes=draw(st.integers(0, 3)) == 0,
+                        quirks=["same_local_classes"] if draw(st.integers(0, 5)) == 0 else []))
     cfg = draw(gg.switches())
     cfg["instances_report_mode"] = "mixed"
     mode = draw(st.sampled_from(["classes", "all", "sm"]))
@@ -140,8 +141,20 @@ def check(case):
         return violation(str(e), labels, nt)
     except oracle.shexc.ShExCError:
         return discard("unparsable-output")
-    if any("__dup_labels__" in d for d in (ce, ce2, cl)):
-        return discard("label-collision")
+    if any("__dup_labels__" in d for d in (ce, ce2, cl)) or len({refmodel.class_label(c) for c in full_sel}) != len(full_sel):
+        # two selected classes share their local name, so two shapes share one label (C05-DUPLABEL): the canonical documents
+        # cannot tell them apart; the endpoint must still deliver the same multiset of shapes as the local run
+        if case["mode"] == "sm" or cap:
+            return discard("label-collision")
+        labels.add("shared-local-name")
+
+        def sigs(text):
+            return sorted((sh.label, sh.n_instances, tuple(sorted(("^" if c.inverse else "") + c.pred for c in sh.constraints)))
+                          for sh in oracle.shexc.read(text).shapes)
+        if not (sigs(text_e) == sigs(text_e2) == sigs(text_l)):
+            return violation("two classes share a local name; multiset of shapes (label, instances, predicates) differs:\n local %s\n endpoint %s\n endpoint (other cache mode) %s" % (
+                sigs(text_l), sigs(text_e), sigs(text_e2)), labels, nt)
+        return ok(labels, nt)
     # ---- cache on vs off
     n_on, n_off = (n_e2, n_e) if case["cache_off"] else (n_e, n_e2)
     labels.add("queries-saved" if n_on < n_off else "queries-equal")
